@@ -480,6 +480,17 @@ func (k *keyEvaluator) evalCall(call *ssa.Call, idx int, env kenv, depth int, bu
 	if len(out) == 0 {
 		return k.opaque("call "+full, call)
 	}
+	// a callee that contributes no literal text is kept as one opaque value
+	// whose origin is the call (so that rules can identify receiver/arguments)
+	allOpaque := true
+	for _, t := range out {
+		if !t.onlyOpaque() || t.isNil() || t.hasParam() {
+			allOpaque = false
+		}
+	}
+	if allOpaque {
+		return k.opaque("call "+k.c.fname(f), call)
+	}
 	return out
 }
 
